@@ -336,8 +336,13 @@ def price_layer(draw):
         blk.append(['Production Tax Credit Electricity', fmt(draw(nice_floats(0.001, 0.2)))])
         if draw(st.booleans()):
             blk.append(['Production Tax Credit Duration', str(draw(st.integers(0, 40)))])
-        if draw(st.booleans()):
-            blk.append(['Production Tax Credit Inflation Adjusted', 'True'])
+        # the flag is stated as True, stated explicitly as its default False (provided but unchanged), or left out; the
+        # inflation rate is drawn independently of it
+        adj = draw(st.sampled_from(['True', 'False', 'false', None, None]))
+        if adj is not None:
+            blk.append(['Production Tax Credit Inflation Adjusted', adj])
+            labels.append('ptc_inflation_flag_stated:' + adj.lower())
+        if adj == 'True' or draw(st.booleans()):
             blk.append(['Inflation Rate', fmt(draw(nice_floats(0, 0.1)))])
         labels.append('ptc_elec')
     if draw(st.integers(0, 6)) == 0:
